@@ -15,19 +15,24 @@ immutable field SweepingProvider.replicationFactor
 # on the target offset.
 func (s *SweepingProvider) timeBetween(from, to time.Duration) time.Duration
   props C17
+  overflow_checked
+  # (an interval beyond 2^62 ns = 146 years would overflow the sum below: configuration bound, ASSUMED)
+  requires s.reprovideInterval <= 4611686018427387903
   requires s.reprovideInterval > 0 && 0 <= from && from < s.reprovideInterval && 0 <= to && to < s.reprovideInterval
   modifies nothing
   ensures [within-one-cycle] 1 <= result && result <= s.reprovideInterval
   ensures [lands-on-the-offset] mod(from + result, s.reprovideInterval) == to
 
 # The slot of a prefix is a fraction val/2^n of the interval: inside the cycle,
-# and computed without leaving the 64-bit range (second ghost assert).
+# and every + - * in it stays inside the signed 64-bit range (overflow_checked:
+# the engine turns the machine range into an obligation for this function).
 func (s *SweepingProvider) reprovideTimeForPrefix(prefix bitstr.Key) time.Duration
   props C17
-  requires s.reprovideInterval > 0
+  overflow_checked
+  requires s.reprovideInterval > 0 && s.reprovideInterval <= 9223372036854775807
   ghostvar $val int = 0
+  ghostvar $m int = 1
   modifies nothing
   ensures [slot-inside-the-cycle] 0 <= result && result < s.reprovideInterval
-  ghost at assign(val): $val = val; assert(0 <= val && val < maxInt && maxInt <= 16777216)
-  ghost at return: assert(s.reprovideInterval * $val <= 9223372036854775807)
+  ghost at assign(val): $val = val; $m = maxInt; assert(0 <= val && val < maxInt && 1 <= maxInt && maxInt <= 16777216)
 @*/
